@@ -206,18 +206,16 @@ class HierDictDocument(DictDocument):
 
             else:
                 # a map, a list or a boolean is never the source of a simple
-                # value (except for lists of byte chunks, and for booleans
-                # where a number is accepted). letting them through makes the
-                # string handlers below fail in arbitrary ways.
-                if isinstance(inst, dict) \
-                        or (isinstance(inst, (list, tuple))
-                                            and not issubclass(cls, ByteArray)) \
+                # value (except for booleans where a number is accepted).
+                # letting them through makes the string handlers below fail in
+                # arbitrary ways.
+                if isinstance(inst, (dict, list, tuple)) \
                         or (isinstance(inst, bool) and not
                                    issubclass(cls, (Boolean, Integer, Double))):
                     raise ValidationError([key, inst])
 
                 # the same goes for a number where the declared type is not
-                # numeric, and for a list that holds anything but byte chunks
+                # numeric
                 if isinstance(inst, (six.integer_types, float)) \
                                                and not isinstance(inst, bool):
                     if not issubclass(cls, (Decimal, Boolean)):
@@ -227,10 +225,6 @@ class HierDictDocument(DictDocument):
                         # decimals travel as strings but a number is fine
                         inst = repr(inst)
 
-                elif isinstance(inst, (list, tuple)) and not all(
-                         isinstance(c, (six.binary_type, six.text_type,
-                                           memoryview, mmap)) for c in inst):
-                    raise ValidationError([key, inst])
 
                 if cls_attrs.empty_is_none and inst in (u'', b''):
                     inst = None
